@@ -45,6 +45,9 @@ Qed.
 Lemma NoDup_snoc {A} (l : list A) x : NoDup l -> ~ In x l -> NoDup (l ++ [x]).
 Proof. intros ND NI. eapply Permutation_NoDup; [apply Permutation_cons_append|]. constructor; assumption. Qed.
 
+Lemma str_dec (a b : str) : {a = b} + {a <> b}.
+Proof. apply list_eq_dec. apply N.eq_dec. Qed.
+
 Lemma dtype_eqb_eq a b : dtype_eqb a b = true <-> a = b.
 Proof. destruct a, b; simpl; split; intro H; congruence || reflexivity. Qed.
 
@@ -273,6 +276,37 @@ Proof.
   assert (G : forall ds, ds_inv ds -> ds_inv (fold_left add_try ops ds)).
   { induction ops as [|d r IH]; intros ds H; simpl; [exact H|]. apply IH. apply add_try_inv. exact H. }
   apply G. split; constructor.
+Qed.
+
+(* one add_delegations call with several arguments *)
+Lemma batch_accepts args : forall ds, Forall (fun d => d_type d = ds_type ds) args ->
+  NoDup (map d_id (ds_items ds ++ args)) ->
+  add_delegations ds args = (mkDs (ds_type ds) (ds_items ds ++ args), None).
+Proof.
+  induction args as [|d r IH]; intros ds T ND.
+  - rewrite app_nil_r. destruct ds. reflexivity.
+  - apply Forall_cons_iff in T as [Td Tr]. cbn [add_delegations].
+    assert (NI : ~ In (d_id d) (map d_id (ds_items ds))).
+    { rewrite map_app in ND. apply NoDup_remove_2 in ND. intro H. apply ND. apply in_or_app. left. exact H. }
+    rewrite (add_accepts ds d Td NI). rewrite IH; cbn [ds_type ds_items].
+    + rewrite <- app_assoc. reflexivity.
+    + exact Tr.
+    + rewrite <- app_assoc. exact ND.
+Qed.
+
+Lemma batch_rejects_duplicate args : forall ds, Forall (fun d => d_type d = ds_type ds) args ->
+  NoDup (map d_id (ds_items ds)) -> ~ NoDup (map d_id (ds_items ds ++ args)) ->
+  snd (add_delegations ds args) = Some EDelegation.
+Proof.
+  induction args as [|d r IH]; intros ds T ND NN.
+  - exfalso. apply NN. rewrite app_nil_r. exact ND.
+  - apply Forall_cons_iff in T as [Td Tr]. cbn [add_delegations].
+    destruct (in_dec str_dec (d_id d) (map d_id (ds_items ds))) as [HI|NI].
+    + rewrite (rejects_duplicate ds d Td HI). reflexivity.
+    + rewrite (add_accepts ds d Td NI). apply IH; cbn [ds_type ds_items].
+      * exact Tr.
+      * rewrite map_app. simpl. apply NoDup_snoc; assumption.
+      * rewrite <- app_assoc. exact NN.
 Qed.
 
 (* invariant of a Delegation under any sequence of set_details attempts: a reference never carries
